@@ -7,6 +7,9 @@ package main
 
 import (
 	"fmt"
+	"github.com/storacha/go-ucanto/core/ipld/codec/cbor"
+	"github.com/storacha/go-ucanto/core/ipld/hash/sha256"
+	mdm "github.com/storacha/go-ucanto/core/message/datamodel"
 	"math/rand"
 	"runtime"
 	"strings"
@@ -114,6 +117,21 @@ func execBsConc(a []string) (res Result) {
 	blocks := make([]ipld.Block, nlinks)
 	idOf := map[string]int{}
 	for i := range blocks {
+		if (int(seed)+i)%2 == 0 {
+			// a block fresh from the encoder, whose link nobody has asked for yet when the goroutines
+			// start sharing it (its identity is taken from a twin encoded from the same value)
+			mk := func() ipld.Block {
+				m := mdm.AgentMessageModel{UcantoMessage7: &mdm.DataModel{Execute: []ipld.Link{dummyLink(i)}}}
+				b, err := block.Encode(&m, mdm.Type(), cbor.Codec, sha256.Hasher)
+				if err != nil {
+					panic(err)
+				}
+				return b
+			}
+			idOf[mk().Link().String()] = i
+			blocks[i] = mk()
+			continue
+		}
 		blocks[i] = block.NewBlock(dummyLink(i), []byte{byte(i), byte(i >> 8)})
 		idOf[blocks[i].Link().String()] = i
 	}
